@@ -376,6 +376,15 @@ func genNum(c *Ctx, collide bool) NumDesc {
 			f = -f
 		}
 		d.Text = strconv.FormatFloat(f, 'g', -1, 64)
+	case 2:
+		// whole numbers around the limits of the machine integer and float types
+		k := []uint{7, 8, 15, 16, 24, 31, 32, 53, 62, 63, 64, 65, 127, 128}[c.G(14)]
+		bi := new(big.Int).Lsh(big.NewInt(1), k)
+		bi.Add(bi, big.NewInt(int64(c.G(3)-1)))
+		if c.G(2) == 0 {
+			bi.Neg(bi)
+		}
+		d.Text = bi.String()
 	case 1:
 		// any float64 of moderate magnitude, likewise
 		mant := uint64(c.G(1<<26))<<26 | uint64(c.G(1<<26))
